@@ -266,9 +266,9 @@ def rb_list_str(rs):
 
 def gen_fp_op(rng, kind=None):
     kind = kind or wchoice(rng, [(1, "fp_p"), (1, "fp_np"), (1, "fp_lp"), (1, "fp_fl")])
-    if rng.random() < 0.2:
-        # near-full utilisation: busy windows spanning several jobs of the analysed task
-        hp, (a, C) = gen.gen_dense_taskset(rng)
+    if rng.random() < 0.55:
+        # near-full utilisation / small-scope task sets: busy windows spanning several jobs of the analysed task
+        hp, (a, C) = gen.gen_dense_taskset(rng) if rng.random() < 0.65 else gen.gen_small_taskset(rng)
         others = [("rbf", x, ("sc", c)) for x, c in hp]
         lim = rng.randint(300, 3000)
         B = wchoice(rng, [(2, 0), (5, rng.randint(1, 4))])
@@ -303,9 +303,9 @@ def stream_fp(rng, n):
 
 def gen_edf_op(rng, kind=None):
     kind = kind or wchoice(rng, [(1, "edf_p"), (1, "edf_np"), (1, "edf_lp"), (1, "edf_fl")])
-    if rng.random() < 0.2:
-        # near-full utilisation: long busy windows, many offsets
-        hp, (a, C) = gen.gen_dense_taskset(rng)
+    if rng.random() < 0.55:
+        # near-full utilisation / small-scope task sets: long busy windows, many offsets
+        hp, (a, C) = gen.gen_dense_taskset(rng) if rng.random() < 0.65 else gen.gen_small_taskset(rng)
         lim = rng.randint(300, 3000)
         D = rng.randint(1, 60)
         def dl():
@@ -352,6 +352,12 @@ def stream_edf(rng, n):
 def stream_fifo(rng, n):
     ops = []
     for _ in range(n):
+        if rng.random() < 0.15:
+            # near-full utilisation: long busy windows, many offsets
+            hp, own = gen.gen_dense_taskset(rng, nhp=rng.randint(1, 3))
+            rs = [("rbf", a, ("sc", c)) for a, c in hp + [own]]
+            ops.append(f"fifo {gen.rb_str(('ragg', rs))} {rng.randint(300, 3000)}")
+            continue
         k = wchoice(rng, [(1, 1), (3, 2), (3, 3), (1, 4)])
         rs = [gen.gen_task_rb(rng, scalar=(rng.random() < 0.85)) for _ in range(k)]
         r = wchoice(rng, [(6, ("ragg", rs)), (2, ("rsli", rs)), (1, rs[0])])
@@ -360,8 +366,12 @@ def stream_fifo(rng, n):
 
 
 def analysis_phase2(rng, ops, results):
-    """limits around the returned bound"""
+    """limits around the returned bound, and (for a few operations) around the SMALLEST divergence
+    limit for which the real analysis still converges — the largest fixed point any of its
+    searches needs, e.g. the busy-window length; found by bisection on the real code"""
+    from .fals_basic import real
     out = []
+    nbis = 0
     for op, res in zip(ops, results):
         if not res.startswith("ok ") or rng.random() < 0.5:
             continue
@@ -370,6 +380,20 @@ def analysis_phase2(rng, ops, results):
         for lim in {max(r - 1, 0), r, r + 1, 2 * r + 1}:
             toks[-1] = str(lim)
             out.append(" ".join(toks))
+        lim0 = int(op.split()[-1])
+        if nbis < 25 and r >= 1 and lim0 > r + 1 and rng.random() < 0.3:
+            nbis += 1
+            lo, hi = max(r, 1), lim0
+            base = op.rsplit(" ", 1)[0]
+            while lo < hi:
+                mid = (lo + hi) // 2
+                if real([f"{base} {mid}"])[0].startswith("ok "):
+                    hi = mid
+                else:
+                    lo = mid + 1
+            for lim in (lo - 1, lo, lo + 1, lo + 2):
+                if lim >= 0:
+                    out.append(f"{base} {lim}")
     return out
 
 
@@ -385,6 +409,15 @@ def stream_ros_e19(rng, n):
         k = wchoice(rng, [(2, "es"), (3, "tm"), (3, "pp"), (2, "ch")])
         own = gen.gen_rb_maybe_agg(rng, scalar=(rng.random() < 0.8), allow_prefix=(rng.random() < 0.1))
         interf = wchoice(rng, [(5, ("ragg", [gen.gen_task_rb(rng) for _ in range(rng.randint(0, 3))])), (2, gen.gen_task_rb(rng))])
+        if rng.random() < 0.3:
+            # near-full utilisation / small-scope callback sets on a dedicated processor or a generous
+            # reservation: busy windows spanning several instances of the analysed callback
+            hp, (oa, oc) = gen.gen_dense_taskset(rng, nhp=rng.randint(1, 2)) if rng.random() < 0.4 else gen.gen_small_taskset(rng, nhp=rng.randint(1, 2))
+            own = ("rbf", oa, ("sc", oc))
+            interf = ("ragg", [("rbf", a, ("sc", c)) for a, c in hp])
+            lim = rng.randint(300, 2000)
+            if rng.random() < 0.6:
+                s = "ded"
         if k == "es":
             ops.append(f"ros_es {s} {gen.rb_str(own)} {lim}")
         elif k == "tm":
@@ -401,6 +434,16 @@ def stream_ros_e19(rng, n):
 
 
 def gen_workload(rng):
+    if rng.random() < 0.25:
+        # small-scope workload: tiny periods and costs, scalar WCETs, assumed bounds in the range of the periods
+        hp, own = gen.gen_small_taskset(rng, nhp=rng.randint(1, 3))
+        ts = hp + [own]
+        rng.shuffle(ts)
+        cbs = [(wchoice(rng, [(1, 0), (5, rng.randint(1, 20))]), a, ("sc", c),
+                wchoice(rng, [(2, "T"), (2, "U"), (5, f"P {rng.randint(0, 5)}")])) for a, c in ts]
+        m = wchoice(rng, [(5, 1), (3, 2)])
+        sub = list(dict.fromkeys(rng.randrange(len(cbs)) for _ in range(m)))
+        return cbs, sub
     n = wchoice(rng, [(2, 1), (4, 2), (4, 3), (2, 4)])
     cbs = []
     for i in range(n):
@@ -530,6 +573,11 @@ BUDGET = {
     "wcet": (9000, 100000),
     "demand": (9000, 100000),
     "derive": (6000, 100000),
+    # analyses: a seeded early exit of an offset loop differs on well under 1 % of even the structured
+    # task sets (measured: 0.65 % of the near-full-utilisation LP-FP systems), hence the volume
+    "fp": (8000, 100000),
+    "edf": (8000, 100000),
+    "fifo": (5000, 100000),
 }
 
 
